@@ -1,8 +1,9 @@
 (* A formal fragment of the CommonMark specification (C02): document trees whose meaning is
    fixed by construction, the HTML the specification prescribes for them (html_of), and a
    Markdown printer (md_of) that spells them using the choices recorded in the tree (which
-   html_of never looks at).  Side conditions that make the spelling unambiguous are the boolean
-   `printable`.  The XHTML dialect of spec.json is used (void elements with " />"). *)
+   html_of never looks at).  The side conditions that make a spelling unambiguous are enforced
+   by the generator (go/cmd/gmh/c02.go, listed in DESIGN.md).  The XHTML dialect of spec.json is
+   used (void elements with " />"), raw HTML is passed through (html.WithUnsafe). *)
 Require Import GM.model.Base GM.model.Util GM.model.Ids GM.model.SpecMech.
 Open Scope N_scope.
 
@@ -11,25 +12,31 @@ Definition word := bytes.          (* [a-z]+ *)
 Inductive atom :=
 | AWord (w : word)
 | AEsc (c : N)                                   (* backslash-escaped ASCII punctuation *)
-| AEnt (spelling : N) (cp : N)                   (* character reference: 0 named, 1 decimal, 2 hex *)
+| AEnt (spelling : N) (cp : N)                   (* character reference: 0 named, 1 decimal, 2 hex, 3 upper-case hex *)
 | AEmph (delim : N) (body : list atom)           (* delim: 0 star, 1 underscore *)
 | AStrong (delim : N) (body : list atom)
-| ACode (content : bytes)
-| ALink (style : N) (variant : N) (body : list atom) (dest : bytes) (title : option bytes) (label : bytes)
+| ACode (ticks : N) (padded : bool) (content : bytes)   (* a run of `ticks` backticks each side, optionally padded by one space *)
+| ALink (style : N) (variant : N) (tstyle : N) (body : list atom) (dest : bytes) (title : option bytes) (label : bytes)
      (* style: 0 inline, 1 inline with <dest>, 2 full reference, 3 collapsed, 4 shortcut;
-        variant: 0 label as is, 1 upper-cased at the use site *)
+        variant (full references): 0 label as is, 1 upper-cased at the use site, 2 inner
+        whitespace doubled and padded at the use site, 3 inner blanks written as tabs;
+        tstyle: the title is written in 0 double quotes, 1 single quotes, 2 parentheses *)
 | AImage (alt : list word) (src : bytes)
 | AAuto (url : bytes)
+| ARaw (html : bytes)                            (* raw inline HTML *)
 | ASoft
 | AHard (style : N).                             (* 0 two spaces, 1 backslash *)
 
 Inductive block :=
 | BPara (indent : N) (atoms : list atom)
-| BHeading (indent : N) (level : N) (style : N) (atoms : list atom)   (* style 0 ATX, 1 ATX closed, 2 Setext *)
+| BHeading (indent : N) (level : N) (style : N) (extra : N) (atoms : list atom)
+     (* style 0 ATX, 1 ATX with a closing run of `extra` hashes, 2 Setext with an underline of `extra` characters *)
 | BHr (indent : N) (style : N)
-| BCode (style : N) (fence_len : N) (info : bytes) (lines : list bytes) (* 0 four spaces, 1 tab, 2 backtick fence, 3 tilde fence *)
-| BQuote (blocks : list block)
-| BList (ordered : bool) (start : N) (delim : N) (marker : N) (tight : bool) (items : list (list block))
+| BCode (style : N) (indent : N) (fence_len : N) (info : bytes) (lines : list bytes)
+     (* 0 four spaces, 1 tab, 2 backtick fence, 3 tilde fence; indent: of both fences and of the content lines (fenced only) *)
+| BQuote (style : N) (blocks : list block)          (* 0 marker and space, 1 bare marker where the line allows it *)
+| BList (indent gap : N) (ordered : bool) (start : N) (delim : N) (marker : N) (tight : bool) (items : list (list block))
+     (* indent: columns before each marker; gap: blanks between marker and content (1..4) *)
 | BHtml (lines : list bytes).
 
 Definition doc := list block.
@@ -45,6 +52,8 @@ Definition spaces (n : N) : bytes := repeat 32 (N.to_nat n).
 Fixpoint join (sep : bytes) (l : list bytes) : bytes :=
   match l with [] => [] | [x] => x | x :: r => x ++ sep ++ join sep r end.
 Definition upper (v : bytes) : bytes := map (fun c => if (97 <=? c) && (c <=? 122) then c - 32 else c) v.
+Definition widen (v : bytes) : bytes := [32] ++ flat_map (fun c => if c =? 32 then [32;9] else [c]) v ++ [32].
+Definition tabbed (v : bytes) : bytes := map (fun c => if c =? 32 then 9 else c) v.
 
 (* the named references used: cp 38 &amp; 60 &lt; 62 &gt; 34 &quot; 169 &copy; *)
 Definition ent_name (cp : N) : option bytes :=
@@ -70,13 +79,14 @@ Fixpoint atom_html (a : atom) : bytes :=
   | AEnt _ cp => esc_html (encode_rune cp)
   | AEmph _ b => [60;101;109;62] ++ atoms_html b ++ [60;47;101;109;62]
   | AStrong _ b => [60;115;116;114;111;110;103;62] ++ atoms_html b ++ [60;47;115;116;114;111;110;103;62]
-  | ACode c => [60;99;111;100;101;62] ++ esc_html c ++ [60;47;99;111;100;101;62]
-  | ALink _ _ b dest title _ =>
+  | ACode _ _ c => [60;99;111;100;101;62] ++ esc_html c ++ [60;47;99;111;100;101;62]
+  | ALink _ _ _ b dest title _ =>
       [60;97;32;104;114;101;102;61;34] ++ esc_html dest ++ [34] ++
       (match title with Some t => [32;116;105;116;108;101;61;34] ++ esc_html t ++ [34] | None => [] end) ++
       [62] ++ atoms_html b ++ [60;47;97;62]
   | AImage alt src => [60;105;109;103;32;115;114;99;61;34] ++ esc_html src ++ [34;32;97;108;116;61;34] ++ join sp alt ++ [34;32;47;62]
   | AAuto u => [60;97;32;104;114;101;102;61;34] ++ esc_html u ++ [34;62] ++ esc_html u ++ [60;47;97;62]
+  | ARaw h => h
   | ASoft => nl
   | AHard _ => [60;98;114;32;47;62;10]
   end.
@@ -99,17 +109,17 @@ Fixpoint block_html (b : block) : bytes :=
   let fix blocks_html (l : list block) : bytes := match l with [] => [] | x :: r => block_html x ++ blocks_html r end in
   match b with
   | BPara _ a => tag [112] ++ atoms_html a ++ ctag [112] ++ nl
-  | BHeading _ lv _ a => tag ([104] ++ dec lv) ++ atoms_html a ++ ctag ([104] ++ dec lv) ++ nl
+  | BHeading _ lv _ _ a => tag ([104] ++ dec lv) ++ atoms_html a ++ ctag ([104] ++ dec lv) ++ nl
   | BHr _ _ => [60;104;114;32;47;62;10]
-  | BCode st _ info lines =>
+  | BCode st _ _ info lines =>
       [60;112;114;101;62;60;99;111;100;101] ++
       (match info with
        | [] => []
        | _ => if (2 <=? st) then [32;99;108;97;115;115;61;34;108;97;110;103;117;97;103;101;45] ++ esc_html info ++ [34] else []
        end) ++ [62] ++
       flat_map (fun l => esc_html l ++ nl) lines ++ [60;47;99;111;100;101;62;60;47;112;114;101;62;10]
-  | BQuote bs => tag [98;108;111;99;107;113;117;111;116;101] ++ nl ++ blocks_html bs ++ ctag [98;108;111;99;107;113;117;111;116;101] ++ nl
-  | BList ordered start _ _ tight items =>
+  | BQuote _ bs => tag [98;108;111;99;107;113;117;111;116;101] ++ nl ++ blocks_html bs ++ ctag [98;108;111;99;107;113;117;111;116;101] ++ nl
+  | BList _ _ ordered start _ _ tight items =>
       let name := if ordered then [111;108] else [117;108] in
       [60] ++ name ++ (if ordered && negb (start =? 1) then [32;115;116;97;114;116;61;34] ++ dec start ++ [34] else []) ++ [62;10] ++
       (fix items_html (its : list (list block)) : bytes :=
@@ -130,25 +140,29 @@ Definition html_of (d : doc) : bytes := flat_map block_html d.
 
 (* ---------- the Markdown printer ---------- *)
 (* reference definitions collected from the document: (label, dest, title) in order *)
-Fixpoint atom_defs (a : atom) : list (bytes * bytes * option bytes) :=
+Fixpoint atom_defs (a : atom) : list (bytes * bytes * N * option bytes) :=
   let fix go (l : list atom) := match l with [] => [] | x :: r => atom_defs x ++ go r end in
   match a with
   | AEmph _ b | AStrong _ b => go b
-  | ALink style _ b dest title label => (if 2 <=? style then [(label, dest, title)] else []) ++ go b
+  | ALink style _ tstyle b dest title label => (if 2 <=? style then [(label, dest, tstyle, title)] else []) ++ go b
   | _ => []
   end.
 Definition atoms_defs (l : list atom) := flat_map atom_defs l.
-Fixpoint block_defs (b : block) : list (bytes * bytes * option bytes) :=
+Fixpoint block_defs (b : block) : list (bytes * bytes * N * option bytes) :=
   let fix go (l : list block) := match l with [] => [] | x :: r => block_defs x ++ go r end in
   match b with
-  | BPara _ a | BHeading _ _ _ a => atoms_defs a
-  | BQuote bs => go bs
-  | BList _ _ _ _ _ items => (fix gi (its : list (list block)) := match its with [] => [] | it :: r => go it ++ gi r end) items
+  | BPara _ a | BHeading _ _ _ _ a => atoms_defs a
+  | BQuote _ bs => go bs
+  | BList _ _ _ _ _ _ _ items => (fix gi (its : list (list block)) := match its with [] => [] | it :: r => go it ++ gi r end) items
   | _ => []
   end.
 
 Definition delim_bytes (d : N) (n : nat) : bytes := repeat (if d =? 0 then 42 else 95) n.
-Definition title_md (t : option bytes) : bytes := match t with Some t => [32;34] ++ t ++ [34] | None => [] end.
+Definition title_md (tstyle : N) (t : option bytes) : bytes :=
+  match t with
+  | Some t => if tstyle =? 0 then [32;34] ++ t ++ [34] else if tstyle =? 1 then [32;39] ++ t ++ [39] else [32;40] ++ t ++ [41]
+  | None => []
+  end.
 
 Fixpoint atom_md (a : atom) : bytes :=
   let fix atoms_md (l : list atom) : bytes :=
@@ -163,20 +177,22 @@ Fixpoint atom_md (a : atom) : bytes :=
   | AEsc c => [92; c]
   | AEnt sp_ cp =>
       if sp_ =? 0 then match ent_name cp with Some n => [38] ++ n ++ [59] | None => ref_decimal cp end
-      else if sp_ =? 1 then ref_decimal cp else ref_hex cp
+      else if sp_ =? 1 then ref_decimal cp else if sp_ =? 2 then ref_hex cp else [38;35;88] ++ upper (hex cp) ++ [59]
   | AEmph d b => delim_bytes d 1 ++ atoms_md b ++ delim_bytes d 1
   | AStrong d b => delim_bytes d 2 ++ atoms_md b ++ delim_bytes d 2
-  | ACode c => [96] ++ c ++ [96]
-  | ALink style variant b dest title label =>
+  | ACode t p c => let f := repeat 96 (N.to_nat t) in f ++ (if p then sp else []) ++ c ++ (if p then sp else []) ++ f
+  | ALink style variant tstyle b dest title label =>
       let text := [91] ++ atoms_md b ++ [93] in
-      let lab := if variant =? 1 then upper label else label in
-      if style =? 0 then text ++ [40] ++ dest ++ title_md title ++ [41]
-      else if style =? 1 then text ++ [40;60] ++ dest ++ [62] ++ title_md title ++ [41]
+      let lab := if variant =? 1 then upper label else if variant =? 2 then widen label
+                 else if variant =? 3 then tabbed label else label in
+      if style =? 0 then text ++ [40] ++ dest ++ title_md tstyle title ++ [41]
+      else if style =? 1 then text ++ [40;60] ++ dest ++ [62] ++ title_md tstyle title ++ [41]
       else if style =? 2 then text ++ [91] ++ lab ++ [93]
       else if style =? 3 then text ++ [91;93]
       else text
   | AImage alt src => [33;91] ++ join sp alt ++ [93;40] ++ src ++ [41]
   | AAuto u => [60] ++ u ++ [62]
+  | ARaw h => h
   | ASoft => nl
   | AHard st => if st =? 0 then [32;32;10] else [92;10]
   end.
@@ -188,7 +204,14 @@ Fixpoint atoms_md (l : list atom) : bytes :=
       atom_md x ++ (match x, y with ASoft, _ | AHard _, _ | _, ASoft | _, AHard _ => [] | _, _ => sp end) ++ atoms_md r
   end.
 
-(* lines of a block (without trailing newline); blocks are joined by one empty line *)
+(* lines of a block (without trailing newline): a structural prefix (container markers and
+   indentation, which may be respelled with tabs) and the content.  Blocks are joined by one
+   empty line. *)
+Definition line := (bytes * bytes)%type.
+Definition pre (p : bytes) (l : line) : line := (p ++ fst l, snd l).
+Definition blank : line := ([], []).
+Definition is_blank (l : line) : bool := match l with ([], []) => true | _ => false end.
+Definition first_byte (l : line) : N := match fst l ++ snd l with c :: _ => c | [] => 0 end.
 Fixpoint split_lines (v : bytes) (cur : bytes) : list bytes :=
   match v with
   | [] => [rev cur]
@@ -196,58 +219,128 @@ Fixpoint split_lines (v : bytes) (cur : bytes) : list bytes :=
   end.
 Definition hr_md (style : N) : bytes :=
   if style =? 0 then [42;42;42] else if style =? 1 then [45;45;45] else if style =? 2 then [95;95;95]
-  else if style =? 3 then [42;32;42;32;42] else [45;45;45;45;45].
+  else if style =? 3 then [42;32;42;32;42] else if style =? 4 then [45;45;45;45;45]
+  else if style =? 5 then [95;32;95;32;95;32;95] else [45;32;45;32;32;45].
 Definition marker_md (ordered : bool) (num : N) (delim marker : N) : bytes :=
   if ordered then dec num ++ [if delim =? 0 then 46 else 41]
   else [if marker =? 0 then 45 else if marker =? 1 then 43 else 42].
 
-Fixpoint block_lines (b : block) : list bytes :=
-  let fix blocks_lines (sep : bool) (l : list block) : list bytes :=
+Fixpoint block_lines (b : block) : list line :=
+  let fix blocks_lines (sep : bool) (l : list block) : list line :=
     match l with
     | [] => []
     | [x] => block_lines x
-    | x :: r => block_lines x ++ (if sep then [[]] else []) ++ blocks_lines sep r
+    | x :: r => block_lines x ++ (if sep then [blank] else []) ++ blocks_lines sep r
     end in
   match b with
-  | BPara ind a => map (fun l => spaces ind ++ l) (split_lines (atoms_md a) [])
-  | BHeading ind lv st a =>
-      if st =? 2 then [spaces ind ++ atoms_md a; spaces ind ++ repeat (if lv =? 1 then 61 else 45) 3]
-      else [spaces ind ++ repeat 35 (N.to_nat lv) ++ sp ++ atoms_md a ++ (if st =? 1 then sp ++ repeat 35 (N.to_nat lv) else [])]
-  | BHr ind st => [spaces ind ++ hr_md st]
-  | BCode st fl info lines =>
-      if st =? 0 then map (fun l => [32;32;32;32] ++ l) lines
-      else if st =? 1 then map (fun l => [9] ++ l) lines
+  | BPara ind a => map (fun l => (spaces ind, l)) (split_lines (atoms_md a) [])
+  | BHeading ind lv st ex a =>
+      if st =? 2 then [(spaces ind, atoms_md a); (spaces ind, repeat (if lv =? 1 then 61 else 45) (N.to_nat ex))]
+      else [(spaces ind, repeat 35 (N.to_nat lv) ++ sp ++ atoms_md a ++ (if st =? 1 then sp ++ repeat 35 (N.to_nat ex) else []))]
+  | BHr ind st => [(spaces ind, hr_md st)]
+  | BCode st ind fl info lines =>
+      if st =? 0 then map (fun l => ([32;32;32;32], l)) lines
+      else if st =? 1 then map (fun l => ([9], l)) lines
       else let f := repeat (if st =? 2 then 96 else 126) (N.to_nat fl) in
-           [f ++ info] ++ lines ++ [f]
-  | BQuote bs => map (fun l => match l with [] => [62] | _ => [62;32] ++ l end) (blocks_lines true bs)
-  | BList ordered start delim marker tight items =>
-      (fix items_lines (num : N) (its : list (list block)) : list bytes :=
+           [(spaces ind, f ++ info)] ++
+           map (fun l => ([], match l with [] => [] | _ => spaces ind ++ l end)) lines ++ [(spaces ind, f)]
+  | BQuote st bs =>
+      map (fun l => if is_blank l then ([62], [])
+                    else if (st =? 1) && negb (first_byte l =? 32) && negb (first_byte l =? 9) then pre [62] l
+                    else pre [62;32] l) (blocks_lines true bs)
+  | BList ind gap ordered start delim marker tight items =>
+      (fix items_lines (num : N) (its : list (list block)) : list line :=
          match its with
          | [] => []
          | it :: r =>
-           let m := marker_md ordered num delim marker ++ sp in
+           let m := spaces ind ++ marker_md ordered num delim marker ++ spaces gap in
            let pad := repeat 32 (length m) in
            (match blocks_lines (negb tight) it with
-            | [] => [m]
-            | l0 :: ls => (m ++ l0) :: map (fun l => match l with [] => [] | _ => pad ++ l end) ls
+            | [] => [(m, [])]
+            | l0 :: ls => pre m l0 :: map (fun l => if is_blank l then l else pre pad l) ls
             end) ++
-           (match r with [] => [] | _ => if tight then [] else [[]] end) ++ items_lines (num + 1) r
+           (match r with [] => [] | _ => if tight then [] else [blank] end) ++ items_lines (num + 1) r
          end) start items
-  | BHtml lines => lines
+  | BHtml lines => map (fun l => ([], l)) lines
   end.
 
-Fixpoint doc_lines (d : doc) : list bytes :=
+Fixpoint doc_lines (d : doc) : list line :=
   match d with
   | [] => []
   | [x] => block_lines x
-  | x :: r => block_lines x ++ [[]] ++ doc_lines r
+  | x :: r => block_lines x ++ [blank] ++ doc_lines r
   end.
 
-Definition def_md (d : bytes * bytes * option bytes) : bytes :=
-  let '(label, dest, title) := d in [91] ++ label ++ [93;58;32] ++ dest ++ title_md title.
+Definition def_md (d : bytes * bytes * N * option bytes) : bytes :=
+  let '(label, dest, tstyle, title) := d in [91] ++ label ++ [93;58;32] ++ dest ++ title_md tstyle title.
 
-(* final_newline: whether the source ends with a newline *)
-Definition md_of (final_newline : bool) (d : doc) : bytes :=
+(* the tab spelling of indentation: inside a structural prefix, every run of blanks that reaches
+   a tab stop is written with a tab up to that stop, so every byte keeps its column.
+   col: the current column; run: blanks seen since the last stop or non-blank byte. *)
+Fixpoint respell (s : bytes) (col : N) (run : nat) : bytes :=
+  match s with
+  | [] => repeat 32 run
+  | c :: r =>
+    if c =? 32 then
+      if (col + 1) mod 4 =? 0 then 9 :: respell r (col + 1) 0 else respell r (col + 1) (S run)
+    else if c =? 9 then repeat 32 run ++ 9 :: respell r ((col / 4 + 1) * 4) 0
+    else repeat 32 run ++ c :: respell r (col + 1) 0
+  end.
+(* what the specification does with tabs where they define block structure: each is replaced
+   by blanks up to the next multiple of four columns *)
+Fixpoint expand (s : bytes) (col : N) : bytes :=
+  match s with
+  | [] => []
+  | c :: r => if c =? 9 then repeat 32 (N.to_nat (4 - col mod 4)) ++ expand r ((col / 4 + 1) * 4)
+              else c :: expand r (col + 1)
+  end.
+Definition line_md (tabs : bool) (l : line) : bytes := (if tabs then respell (fst l) 0 0 else fst l) ++ snd l.
+
+(* tabs: respell structural indentation with tabs; final_newline: whether the source ends with a newline *)
+Definition md_of (tabs final_newline : bool) (d : doc) : bytes :=
   let defs := flat_map block_defs d in
-  let ls := doc_lines d ++ (match defs with [] => [] | _ => [[]] ++ map def_md defs end) in
-  join nl ls ++ (if final_newline then nl else []).
+  let ls := doc_lines d ++ (match defs with [] => [] | _ => [blank] ++ map (fun x => ([], def_md x)) defs end) in
+  join nl (map (line_md tabs) ls) ++ (if final_newline then nl else []).
+
+(* ---------- erasure of the spelling choices ---------- *)
+Fixpoint erase_atom (a : atom) : atom :=
+  match a with
+  | AEnt _ cp => AEnt 0 cp
+  | AEmph _ b => AEmph 0 (map erase_atom b)
+  | AStrong _ b => AStrong 0 (map erase_atom b)
+  | ACode _ _ c => ACode 1 false c
+  | ALink _ _ _ b dest title _ => ALink 0 0 0 (map erase_atom b) dest title []
+  | AHard _ => AHard 0
+  | x => x
+  end.
+Fixpoint erase_block (b : block) : block :=
+  match b with
+  | BPara _ a => BPara 0 (map erase_atom a)
+  | BHeading _ lv _ _ a => BHeading 0 lv 0 0 (map erase_atom a)
+  | BHr _ _ => BHr 0 0
+  | BCode st _ _ info lines => if 2 <=? st then BCode 2 0 3 info lines else BCode 0 0 0 [] lines
+  | BQuote _ bs => BQuote 0 (map erase_block bs)
+  | BList _ _ ordered start _ _ tight items => BList 0 1 ordered start 0 0 tight (map (map erase_block) items)
+  | BHtml lines => BHtml lines
+  end.
+Definition erase (d : doc) : doc := map erase_block d.
+
+(* ---------- side conditions on leaves (the generator's alphabet) ---------- *)
+Definition lower (c : N) : bool := (97 <=? c) && (c <=? 122).
+Definition lower_word (w : bytes) : bool := negb (Nat.eqb (length w) 0) && forallb lower w.
+Definition valid_cp (cp : N) : bool := (0 <? cp) && (cp <? 1114112) && negb ((55296 <=? cp) && (cp <=? 57343)).
+(* text leaves: what goldmark keeps as raw text and resolves when writing *)
+Definition leaf (is_punct : N -> bool) (a : atom) : bool :=
+  match a with
+  | AWord w => lower_word w
+  | AEsc c => is_punct c
+  | AEnt s cp => (s <? 4) && valid_cp cp
+  | _ => false
+  end.
+(* labels: lower-case words separated by single blanks *)
+Fixpoint label_words (ws : list bytes) : bool :=
+  match ws with [] => false | [w] => lower_word w | w :: r => lower_word w && label_words r end.
+(* destinations: the generator's alphabet a-z 0-9 / : . ? = & # - _ ~ + *)
+Definition dest_char (c : N) : bool :=
+  lower c || ((48 <=? c) && (c <=? 57)) ||
+  existsb (N.eqb c) [47;58;46;63;61;38;35;45;95;126;43].
